@@ -1715,6 +1715,22 @@ impl World {
 		c.fee_base_msat as u64 + amt_out * c.fee_prop_millionths as u64 / 1_000_000
 	}
 
+	/// Final-hop CLTV delta of path `pi`. Profile `deadlines` explores the recipient's acceptance
+	/// boundary (HTLC_FAIL_BACK_BUFFER = 39 blocks) and gives the parts of a multi-part payment
+	/// different expiries; a pure function of the amounts so that a trace needs no extra field.
+	pub fn final_cltv_for(&self, amts: &[u64], pi: usize) -> u32 {
+		if self.cfg.profile != "deadlines" {
+			return FINAL_CLTV;
+		}
+		const GRID: [u32; 12] = [37, 38, 39, 40, 41, 42, 43, 44, 70, 70, 70, 100];
+		let base = GRID[(amts[0] % 12) as usize];
+		if pi == 0 {
+			base
+		} else {
+			base + (amts[pi] % 4) as u32
+		}
+	}
+
 	pub fn build_paths(
 		&self, from: usize, paths: &[Vec<usize>], amts: &[u64], fee_delta: i64, cltv_adj: i32,
 	) -> Option<Vec<PathInfo>> {
@@ -1738,7 +1754,7 @@ impl World {
 			let mut hop_amts = vec![0u64; k];
 			let mut deltas = vec![0u32; k];
 			hop_amts[k - 1] = amts[pi];
-			deltas[k - 1] = FINAL_CLTV;
+			deltas[k - 1] = self.final_cltv_for(amts, pi);
 			for i in (0..k - 1).rev() {
 				// node nodes[i] forwards from chans[i] to chans[i+1]
 				let fee = self.fwd_fee(nodes[i], hop_amts[i + 1]) as i64 + fee_delta;
@@ -1804,11 +1820,7 @@ impl World {
 							short_channel_id: self.chans[p.chans[i]].scid,
 							channel_features: ms.channel_features(),
 							fee_msat,
-							cltv_expiry_delta: if i + 1 < p.chans.len() {
-								p.hop_cltv_deltas[i]
-							} else {
-								FINAL_CLTV
-							},
+							cltv_expiry_delta: p.hop_cltv_deltas[i],
 							maybe_announced_channel: true,
 						}
 					})
@@ -1817,7 +1829,10 @@ impl World {
 			})
 			.collect();
 		let route_params = RouteParameters::from_payment_params_and_value(
-			PaymentParameters::from_node_id(self.nodes[to].node_id, FINAL_CLTV),
+			PaymentParameters::from_node_id(
+				self.nodes[to].node_id,
+				infos.iter().map(|p| *p.hop_cltv_deltas.last().unwrap()).min().unwrap_or(FINAL_CLTV),
+			),
 			total,
 		);
 		let route = Route { paths: route_paths, route_params };
